@@ -178,6 +178,8 @@ bool splinetable<Alloc>::read_fits_mem(void* buffer, size_t buffer_size){
 	
 template<typename Alloc>
 bool splinetable<Alloc>::read_fits_core(fitsfile* fits, const std::string& filePath){
+	//An empty table may already carry auxiliary keys; the file brings its own
+	clear();
 	try{
 		return(read_fits_core_impl(fits, filePath));
 	}catch(...){
